@@ -8,7 +8,8 @@ patch = sid if os.path.isfile(sid) else '/verif/seeded/%s/patch.diff' % sid
 wt = tempfile.mkdtemp(prefix='ts_', dir='/tmp'); os.rmdir(wt)
 subprocess.check_call('git -C /repo worktree add --detach %s HEAD >/dev/null 2>&1' % wt, shell=True)
 try:
-    subprocess.check_call('git apply %s' % patch, shell=True, cwd=wt)
+    if subprocess.call('git apply %s 2>/dev/null' % patch, shell=True, cwd=wt) != 0:
+        subprocess.check_call('git apply --3way %s >/dev/null 2>&1' % patch, shell=True, cwd=wt)
     for p in props:
         r = subprocess.run('PV_REPO=%s timeout 600 /verif/check %s --no-evidence %s 2>&1' % (wt, p, os.environ.get('TRY_ARGS', '')),
                            shell=True, capture_output=True, text=True)
